@@ -1,4 +1,10 @@
+/-
+Helper definitions and lemmas for C04: the documented assignability relation `Sub` (declarative, written from
+the book and the property text), the fragment of declarable types, arity well-formedness, and the lemmas that
+relate `bindIn` / `mix` to them.
+-/
 import XrayModel.Types
+set_option maxHeartbeats 400000
 namespace XrayModel
 
 theorem bindIn_callable_callable (ps ps' : List Ty) (r r' : Ty) (b : Bnd)
@@ -7,5 +13,388 @@ theorem bindIn_callable_callable (ps ps' : List Ty) (r r' : Ty) (b : Bnd)
   split at h
   · cases h
   · rename_i hne; simpa using hne
+
+/-! ## the documented relation -/
+mutual
+/-- `Sub s r`: a value of static type `s` may be used where `r` is required, with nothing left to bind:
+identical types; the bottom type into anything; tuples, natives and compounds component- and name-wise;
+function types by exact arity and component types (a function with optional parameters at every arity of
+its window). Generic parameters are opaque here. -/
+inductive Sub : Ty → Ty → Prop
+  | bot (t : Ty) : Sub .unknown t
+  | bool : Sub .bool .bool
+  | int : Sub .int .int
+  | float : Sub .float .float
+  | str : Sub .str .str
+  | generic (a : String) : Sub (.generic a) (.generic a)
+  | tuple {ss rs : List Ty} : SubList ss rs → Sub (.tuple ss) (.tuple rs)
+  | native {n : String} {ss rs : List Ty} : SubList ss rs → Sub (.native n ss) (.native n rs)
+  | compound {k : Kind} {n : String} {ss rs : List Ty} : SubList ss rs → Sub (.compound k n ss) (.compound k n rs)
+  | callable {ps' ps : List Ty} {r' r : Ty} : SubList ps' ps → Sub r' r → Sub (.callable ps' r') (.callable ps r)
+  | func {g : Option (List String)} {ps' ps : List Ty} {n' : Nat} {r' r : Ty} :
+      n' ≤ ps.length → ps.length ≤ ps'.length → SubList (ps'.take ps.length) ps → Sub r' r →
+      Sub (.func g ps' n' r') (.callable ps r)
+/-- component-wise, same length -/
+inductive SubList : List Ty → List Ty → Prop
+  | nil : SubList [] []
+  | cons {s r : Ty} {ss rs : List Ty} : Sub s r → SubList ss rs → SubList (s :: ss) (r :: rs)
+end
+
+mutual
+/-- types that can be written in a program: no `unknown`, no `XFunc` -/
+def declarable : Ty → Bool
+  | .unknown => false
+  | .func _ _ _ _ => false
+  | .tuple ts => declarableList ts
+  | .native _ ts => declarableList ts
+  | .compound _ _ ts => declarableList ts
+  | .callable ps r => declarableList ps && declarable r
+  | _ => true
+def declarableList : List Ty → Bool
+  | [] => true
+  | t :: ts => declarable t && declarableList ts
+end
+
+mutual
+/-- every native / compound name is used with the number of type arguments `ar` gives it
+(`GenericParamCountMismatch` enforces this for written types, inference preserves it) -/
+def wfTy (ar : String → Nat) : Ty → Bool
+  | .tuple ts => wfList ar ts
+  | .native n ts => ts.length == ar n && wfList ar ts
+  | .compound _ n ts => ts.length == ar n && wfList ar ts
+  | .callable ps r => wfList ar ps && wfTy ar r
+  | .func _ ps n r => wfList ar ps && wfTy ar r && n ≤ ps.length
+  | _ => true
+def wfList (ar : String → Nat) : List Ty → Bool
+  | [] => true
+  | t :: ts => wfTy ar t && wfList ar ts
+end
+
+theorem SubList.length_eq {ss rs : List Ty} (h : SubList ss rs) : ss.length = rs.length := by
+  induction ss generalizing rs with
+  | nil => cases h; rfl
+  | cons s ss ih => cases h with | cons h1 h2 => simp [ih h2]
+
+/-! ## mix and emptiness -/
+theorem insert_ne_nil (b : Bnd) (k : String) (v : Ty) : b.insert k v ≠ [] := by
+  cases b with
+  | nil => simp [Bnd.insert]
+  | cons e rest => obtain ⟨k', v'⟩ := e; simp only [Bnd.insert]; split <;> simp
+
+theorem mix_ne_nil_of_self (self other res : Bnd) (h : mix self other = some res) (hs : self ≠ []) : res ≠ [] := by
+  induction other generalizing self with
+  | nil => simp [mix] at h; subst h; exact hs
+  | cons e rest ih =>
+    obtain ⟨k, v⟩ := e
+    simp only [mix] at h
+    split at h
+    · split at h
+      · cases h
+      · exact ih _ h (insert_ne_nil _ _ _)
+    · exact ih _ h (insert_ne_nil _ _ _)
+
+theorem mix_nil_iff (self other : Bnd) : mix self other = some [] ↔ self = [] ∧ other = [] := by
+  constructor
+  · intro h
+    cases other with
+    | nil => simp [mix] at h; exact ⟨h, rfl⟩
+    | cons e rest =>
+      obtain ⟨k, v⟩ := e
+      simp only [mix] at h
+      exfalso
+      split at h
+      · split at h
+        · cases h
+        · exact mix_ne_nil_of_self _ _ _ h (insert_ne_nil _ _ _) rfl
+      · exact mix_ne_nil_of_self _ _ _ h (insert_ne_nil _ _ _) rfl
+  · rintro ⟨rfl, rfl⟩; rfl
+
+
+/-! ## inversion of `Sub` on the required side -/
+theorem sub_bool_iff (s : Ty) : Sub s .bool ↔ s = .unknown ∨ s = .bool := by
+  constructor
+  · intro h; cases h <;> simp
+  · rintro (rfl | rfl); exact .bot _; exact .bool
+theorem sub_int_iff (s : Ty) : Sub s .int ↔ s = .unknown ∨ s = .int := by
+  constructor
+  · intro h; cases h <;> simp
+  · rintro (rfl | rfl); exact .bot _; exact .int
+theorem sub_float_iff (s : Ty) : Sub s .float ↔ s = .unknown ∨ s = .float := by
+  constructor
+  · intro h; cases h <;> simp
+  · rintro (rfl | rfl); exact .bot _; exact .float
+theorem sub_str_iff (s : Ty) : Sub s .str ↔ s = .unknown ∨ s = .str := by
+  constructor
+  · intro h; cases h <;> simp
+  · rintro (rfl | rfl); exact .bot _; exact .str
+theorem sub_generic_iff (s : Ty) (a : String) : Sub s (.generic a) ↔ s = .unknown ∨ s = .generic a := by
+  constructor
+  · intro h; cases h <;> simp
+  · rintro (rfl | rfl); exact .bot _; exact .generic a
+theorem sub_tuple_iff (s : Ty) (rs : List Ty) :
+    Sub s (.tuple rs) ↔ s = .unknown ∨ ∃ ss, s = .tuple ss ∧ SubList ss rs := by
+  constructor
+  · intro h; cases h with
+    | bot => simp
+    | tuple h => exact .inr ⟨_, rfl, h⟩
+  · rintro (rfl | ⟨ss, rfl, h⟩); exact .bot _; exact .tuple h
+theorem sub_native_iff (s : Ty) (n : String) (rs : List Ty) :
+    Sub s (.native n rs) ↔ s = .unknown ∨ ∃ ss, s = .native n ss ∧ SubList ss rs := by
+  constructor
+  · intro h; cases h with
+    | bot => simp
+    | native h => exact .inr ⟨_, rfl, h⟩
+  · rintro (rfl | ⟨ss, rfl, h⟩); exact .bot _; exact .native h
+theorem sub_compound_iff (s : Ty) (k : Kind) (n : String) (rs : List Ty) :
+    Sub s (.compound k n rs) ↔ s = .unknown ∨ ∃ ss, s = .compound k n ss ∧ SubList ss rs := by
+  constructor
+  · intro h; cases h with
+    | bot => simp
+    | compound h => exact .inr ⟨_, rfl, h⟩
+  · rintro (rfl | ⟨ss, rfl, h⟩); exact .bot _; exact .compound h
+theorem sub_callable_iff (s : Ty) (ps : List Ty) (r : Ty) :
+    Sub s (.callable ps r) ↔ s = .unknown ∨ (∃ ps' r', s = .callable ps' r' ∧ SubList ps' ps ∧ Sub r' r) ∨
+      (∃ g ps' n' r', s = .func g ps' n' r' ∧ n' ≤ ps.length ∧ ps.length ≤ ps'.length ∧
+        SubList (ps'.take ps.length) ps ∧ Sub r' r) := by
+  constructor
+  · intro h; cases h with
+    | bot => simp
+    | callable h1 h2 => exact .inr (.inl ⟨_, _, rfl, h1, h2⟩)
+    | func h1 h2 h3 h4 => exact .inr (.inr ⟨_, _, _, _, rfl, h1, h2, h3, h4⟩)
+  · rintro (rfl | ⟨ps', r', rfl, h1, h2⟩ | ⟨g, ps', n', r', rfl, h1, h2, h3, h4⟩)
+    · exact .bot _
+    · exact .callable h1 h2
+    · exact .func h1 h2 h3 h4
+
+theorem subList_cons_iff (s r : Ty) (ss rs : List Ty) : SubList (s :: ss) (r :: rs) ↔ Sub s r ∧ SubList ss rs := by
+  constructor
+  · intro h; cases h with | cons h1 h2 => exact ⟨h1, h2⟩
+  · rintro ⟨h1, h2⟩; exact .cons h1 h2
+theorem subList_nil_iff (ss : List Ty) : SubList ss [] ↔ ss = [] := by
+  constructor
+  · intro h; cases h; rfl
+  · rintro rfl; exact .nil
+theorem subList_nil_left_iff (rs : List Ty) : SubList [] rs ↔ rs = [] := by
+  constructor
+  · intro h; cases h; rfl
+  · rintro rfl; exact .nil
+
+theorem sub_tuple_tuple (ss rs : List Ty) : Sub (.tuple ss) (.tuple rs) ↔ SubList ss rs := by
+  constructor
+  · intro h; cases h with | tuple h => exact h
+  · exact .tuple
+theorem sub_native_native (n m : String) (ss rs : List Ty) :
+    Sub (.native m ss) (.native n rs) ↔ n = m ∧ SubList ss rs := by
+  constructor
+  · intro h; cases h with | native h => exact ⟨rfl, h⟩
+  · rintro ⟨rfl, h⟩; exact .native h
+theorem sub_compound_compound (k k' : Kind) (n m : String) (ss rs : List Ty) :
+    Sub (.compound k' m ss) (.compound k n rs) ↔ n = m ∧ k = k' ∧ SubList ss rs := by
+  constructor
+  · intro h; cases h with | compound h => exact ⟨rfl, rfl, h⟩
+  · rintro ⟨rfl, rfl, h⟩; exact .compound h
+theorem sub_callable_callable (ps' ps : List Ty) (r' r : Ty) :
+    Sub (.callable ps' r') (.callable ps r) ↔ SubList ps' ps ∧ Sub r' r := by
+  constructor
+  · intro h; cases h with | callable h1 h2 => exact ⟨h1, h2⟩
+  · rintro ⟨h1, h2⟩; exact .callable h1 h2
+theorem sub_func_callable (g : Option (List String)) (ps' ps : List Ty) (n' : Nat) (r' r : Ty) :
+    Sub (.func g ps' n' r') (.callable ps r) ↔
+      n' ≤ ps.length ∧ ps.length ≤ ps'.length ∧ SubList (ps'.take ps.length) ps ∧ Sub r' r := by
+  constructor
+  · intro h; cases h with | func h1 h2 h3 h4 => exact ⟨h1, h2, h3, h4⟩
+  · rintro ⟨h1, h2, h3, h4⟩; exact .func h1 h2 h3 h4
+
+theorem bindZip_ne_nil : (rs ss : List Ty) → (acc res : Bnd) → acc ≠ [] → bindZip rs ss acc = some res → res ≠ []
+  | [], ss, acc, res, hne, h => by simp [bindZip] at h; subst h; exact hne
+  | r :: rs, [], acc, res, hne, h => by simp [bindZip] at h; subst h; exact hne
+  | r :: rs, s :: ss, acc, res, hne, h => by
+    simp only [bindZip] at h
+    split at h
+    · cases h
+    · split at h
+      · cases h
+      · rename_i acc' hacc'
+        exact bindZip_ne_nil rs ss acc' res (mix_ne_nil_of_self _ _ _ hacc' hne) h
+
+/-- the three function-type arms end with the same two steps -/
+theorem tail_nil_iff (z : Option Bnd) (o : Option Bnd) :
+    (match z with
+      | none => none
+      | some acc => match o with
+        | none => none
+        | some b => mix acc b) = some [] ↔ z = some [] ∧ o = some [] := by
+  cases z with
+  | none => simp
+  | some acc =>
+    cases o with
+    | none => simp
+    | some b => simp [mix_nil_iff]
+
+/-! ## `bind_in_assignment` with an empty binding is exactly `Sub` -/
+mutual
+theorem bindIn_nil_iff (ar : String → Nat) : (r s : Ty) → declarable r = true → wfTy ar r = true → wfTy ar s = true →
+    (bindIn r s = some [] ↔ Sub s r)
+  | .bool, s, _, _, _ => by cases s <;> simp [bindIn, sub_bool_iff]
+  | .int, s, _, _, _ => by cases s <;> simp [bindIn, sub_int_iff]
+  | .float, s, _, _, _ => by cases s <;> simp [bindIn, sub_float_iff]
+  | .str, s, _, _, _ => by cases s <;> simp [bindIn, sub_str_iff]
+  | .unknown, s, hd, _, _ => by simp [declarable] at hd
+  | .func _ _ _ _, s, hd, _, _ => by simp [declarable] at hd
+  | .generic a, s, _, _, _ => by
+    cases s with
+    | generic b =>
+      by_cases h : a = b
+      · subst h; simp [bindIn, sub_generic_iff]
+      · have h' : ¬ b = a := fun e => h e.symm
+        simp [bindIn, sub_generic_iff, h, h']
+    | _ => simp [bindIn, sub_generic_iff]
+  | .tuple rs, s, hd, hr, hs => by
+    cases s with
+    | tuple ss =>
+      simp only [declarable, wfTy] at hd hr hs
+      rw [sub_tuple_tuple]
+      simp only [bindIn]
+      by_cases hl : rs.length = ss.length
+      · simp only [hl, bne_self_eq_false, Bool.false_eq_true, if_false]
+        rw [bindZip_nil_iff ar rs ss hd hr hs (by omega), hl, List.take_length]
+      · have : ¬ SubList ss rs := fun h => hl h.length_eq.symm
+        simp [hl, this]
+    | _ => simp [bindIn, sub_tuple_iff]
+  | .native n rs, s, hd, hr, hs => by
+    cases s with
+    | native m ss =>
+      simp only [declarable, wfTy, Bool.and_eq_true, beq_iff_eq] at hd hr hs
+      rw [sub_native_native]
+      simp only [bindIn]
+      by_cases hnm : n = m
+      · subst hnm
+        have hl : rs.length = ss.length := by omega
+        simp only [bne_self_eq_false, Bool.false_eq_true, if_false, true_and]
+        rw [bindZip_nil_iff ar rs ss hd hr.2 hs.2 (by omega), hl, List.take_length]
+      · simp [hnm]
+    | _ => simp [bindIn, sub_native_iff]
+  | .compound k n rs, s, hd, hr, hs => by
+    cases s with
+    | compound k' m ss =>
+      simp only [declarable, wfTy, Bool.and_eq_true, beq_iff_eq] at hd hr hs
+      rw [sub_compound_compound]
+      simp only [bindIn]
+      by_cases hnm : n = m
+      · subst hnm
+        by_cases hk : k = k'
+        · subst hk
+          have hl : rs.length = ss.length := by omega
+          simp only [bne_self_eq_false, Bool.or_self, Bool.false_eq_true, if_false, true_and]
+          exact bindZipRev_nil_iff ar rs ss hd hr.2 hs.2 hl
+        · simp [hk]
+      · simp [hnm]
+    | _ => simp [bindIn, sub_compound_iff]
+  | .callable ps r, s, hd, hr, hs => by
+    simp only [declarable, wfTy, Bool.and_eq_true] at hd hr
+    cases s with
+    | callable ps' r' =>
+      simp only [wfTy, Bool.and_eq_true] at hs
+      rw [sub_callable_callable]
+      simp only [bindIn]
+      by_cases hl : ps.length = ps'.length
+      · simp only [hl, bne_self_eq_false, Bool.false_eq_true, if_false]
+        have e : SubList ps' ps ↔ bindZip ps ps' [] = some [] := by
+          rw [bindZip_nil_iff ar ps ps' hd.1 hr.1 hs.1 (by omega), hl, List.take_length]
+        rw [e, ← bindIn_nil_iff ar r r' hd.2 hr.2 hs.2]
+        cases bindZip ps ps' [] <;> cases bindIn r r' <;> simp [mix_nil_iff]
+      · have : ¬ SubList ps' ps := fun h => hl h.length_eq.symm
+        simp [hl, this]
+    | func g ps' n' r' =>
+      simp only [wfTy, Bool.and_eq_true, decide_eq_true_eq] at hs
+      rw [sub_func_callable]
+      simp only [bindIn]
+      by_cases hw : n' ≤ ps.length ∧ ps.length ≤ ps'.length
+      · have hc : (decide (ps.length < n') || decide (ps.length > ps'.length)) = false := by
+          simp; omega
+        simp only [hc, Bool.false_eq_true, if_false]
+        rw [← bindZip_nil_iff ar ps ps' hd.1 hr.1 hs.1.1 hw.2, ← bindIn_nil_iff ar r r' hd.2 hr.2 hs.1.2]
+        cases bindZip ps ps' [] <;> cases bindIn r r' <;> simp [mix_nil_iff, hw.1, hw.2]
+      · have hc : (decide (ps.length < n') || decide (ps.length > ps'.length)) = true := by
+          simp; omega
+        simp only [hc, if_true]
+        constructor
+        · intro h; cases h
+        · rintro ⟨h1, h2, _⟩; exact absurd ⟨h1, h2⟩ hw
+    | _ => simp [bindIn, sub_callable_iff]
+theorem bindZip_nil_iff (ar : String → Nat) : (rs ss : List Ty) → declarableList rs = true → wfList ar rs = true →
+    wfList ar ss = true → rs.length ≤ ss.length → (bindZip rs ss [] = some [] ↔ SubList (ss.take rs.length) rs)
+  | [], ss, _, _, _, _ => by simp [bindZip, subList_nil_iff]
+  | r :: rs, [], _, _, _, hl => by simp at hl
+  | r :: rs, s :: ss, hd, hr, hs, hl => by
+    simp only [declarableList, wfList, Bool.and_eq_true] at hd hr hs
+    simp only [List.length_cons, Nat.add_le_add_iff_right] at hl
+    simp only [bindZip, List.length_cons, List.take_succ_cons, subList_cons_iff]
+    rw [← bindIn_nil_iff ar r s hd.1 hr.1 hs.1, ← bindZip_nil_iff ar rs ss hd.2 hr.2 hs.2 hl]
+    constructor
+    · intro h
+      split at h
+      · cases h
+      · rename_i sub hsub
+        split at h
+        · cases h
+        · rename_i acc' hacc'
+          by_cases hne : acc' = []
+          · subst hne
+            obtain ⟨_, hs0⟩ := (mix_nil_iff _ _).mp hacc'
+            subst hs0
+            exact ⟨hsub, h⟩
+          · exact absurd rfl (bindZip_ne_nil rs ss acc' [] hne h)
+    · rintro ⟨h1, h2⟩
+      simp [h1, mix, h2]
+theorem bindZipRev_nil_iff (ar : String → Nat) : (rs ss : List Ty) → declarableList rs = true → wfList ar rs = true →
+    wfList ar ss = true → rs.length = ss.length → (bindZipRev rs ss = some [] ↔ SubList ss rs)
+  | [], ss, _, _, _, hl => by
+    have : ss = [] := by cases ss <;> simp_all
+    subst this; simp [bindZipRev, subList_nil_iff]
+  | r :: rs, [], _, _, _, hl => by simp at hl
+  | r :: rs, s :: ss, hd, hr, hs, hl => by
+    simp only [declarableList, wfList, Bool.and_eq_true] at hd hr hs
+    simp only [List.length_cons, Nat.add_right_cancel_iff] at hl
+    simp only [bindZipRev, subList_cons_iff]
+    rw [← bindIn_nil_iff ar r s hd.1 hr.1 hs.1, ← bindZipRev_nil_iff ar rs ss hd.2 hr.2 hs.2 hl]
+    constructor
+    · intro h
+      split at h
+      · cases h
+      · rename_i acc hacc
+        split at h
+        · cases h
+        · rename_i sub hsub
+          obtain ⟨h1, h2⟩ := (mix_nil_iff _ _).mp h
+          subst h1; subst h2
+          exact ⟨hsub, hacc⟩
+    · rintro ⟨h1, h2⟩
+      simp [h1, h2, mix]
+end
+
+
+/-! ## reflexivity of `Sub` on declarable types ("identical types") -/
+mutual
+theorem sub_refl : (t : Ty) → declarable t = true → Sub t t
+  | .bool, _ => .bool
+  | .int, _ => .int
+  | .float, _ => .float
+  | .str, _ => .str
+  | .unknown, _ => .bot _
+  | .generic a, _ => .generic a
+  | .tuple ts, h => .tuple (subList_refl ts (by simpa [declarable] using h))
+  | .native _ ts, h => .native (subList_refl ts (by simpa [declarable] using h))
+  | .compound _ _ ts, h => .compound (subList_refl ts (by simpa [declarable] using h))
+  | .callable ps r, h => by
+    simp only [declarable, Bool.and_eq_true] at h
+    exact .callable (subList_refl ps h.1) (sub_refl r h.2)
+  | .func _ _ _ _, h => by simp [declarable] at h
+theorem subList_refl : (ts : List Ty) → declarableList ts = true → SubList ts ts
+  | [], _ => .nil
+  | t :: ts, h => by
+    simp only [declarableList, Bool.and_eq_true] at h
+    exact .cons (sub_refl t h.1) (subList_refl ts h.2)
+end
 
 end XrayModel
